@@ -1417,6 +1417,15 @@ impl Visitor<Diagnostic> for LibraryRenderer {
         };
         self.write_ws(op);
 
+        // The operand of a unary operator is a primary expression, so another
+        // unary expression needs parentheses.
+        if let dsl::textual::ExprKind::UnaryOp(_) = &node.term {
+            self.write_ws("(");
+            self.visit_expr_kind(&node.term)?;
+            self.write_ws(")");
+            return Ok(());
+        }
+
         self.visit_expr_kind(&node.term)
     }
 
